@@ -148,10 +148,13 @@ func decodeStruct(p Paragraph, into reflect.Value) error {
 		fieldType := into.Type().Field(i)
 
 		if field.Type().Kind() == reflect.Struct &&
+			field.Type() != paragraphType &&
 			!reflect.PtrTo(field.Type()).Implements(unmarshallableType) {
 			/* A struct that decodes itself from its own field (a version, a
 			 * dependency, an architecture) is not also filled in from the
-			 * paragraph's other fields. */
+			 * paragraph's other fields; neither is the embedded Paragraph, whose
+			 * Values and Order are not fields of the document (a field named
+			 * "Values" is a field like any other). */
 			err := decodeStruct(p, field)
 			if err != nil {
 				return err
